@@ -133,7 +133,7 @@ class Report:
         # one report per distinct finding: a rule that judges a function path by path meets the same construct once per path
         uniq, seen_keys = [], set()
         for v in new:
-            key = (v["rule"], v["construct"], v.get("detail", ""), v.get("found", ""), v["loc"])
+            key = (v["rule"], v["construct"], repr(v.get("detail", "")), repr(v.get("found", "")), v["loc"])
             if key in seen_keys:
                 v["duplicate_of_earlier_path"] = True
                 continue
